@@ -331,7 +331,7 @@ class Gen:
         base = None
         taken = set()
         if r.random() < self.cfg["p_ext"] and "extension" not in self.q:
-            cands = [c for c in self.created if c.kind == "complex" and c.file in self.visible(fidx) and ext_depth(c) < 3
+            cands = [c for c in self.created if c.kind == "complex" and c.file in self.visible(fidx) and ext_depth(c) < 4
                      and ("cycle-back-reference" not in self.q or c.file not in self.in_progress(fidx))]
             if cands:
                 other = [c for c in cands if c.file != fidx]
